@@ -3,6 +3,7 @@ package engine
 import (
 	"fmt"
 	"sort"
+	"strings"
 
 	"github.com/cockroachdb/pebble/verifsim/kvmodel"
 )
@@ -150,6 +151,21 @@ func (g *gen) genMixed(nops int, w mixW) {
 		case "excise":
 			a, b := g.prefixSpan()
 			g.add(DBOp{K: "excise", Key: a, End: b})
+			if g.r.IntN(4) == 0 {
+				// while that excise may still sit in the flushable queue: an
+				// ingestion of a table whose largest key is exactly the start
+				// of the excised span (bounds that touch without overlapping)
+				tab := DBOp{K: "table"}
+				for _, p := range g.pfx {
+					if kvmodel.Compare(p, a) < 0 && g.r.IntN(3) == 0 {
+						tag, vl := g.val()
+						tab.Sub = append(tab.Sub, DBOp{K: "set", Key: p, Val: tag, VLen: vl % 200})
+					}
+				}
+				tag, vl := g.val()
+				tab.Sub = append(tab.Sub, DBOp{K: "set", Key: a, Val: tag, VLen: vl % 200})
+				g.add(DBOp{K: "ingest", Sub: []DBOp{tab}})
+			}
 		case "flush":
 			if g.r.IntN(3) == 0 {
 				g.add(DBOp{K: "aflush"})
@@ -290,6 +306,16 @@ func (g *gen) genMixed(nops int, w mixW) {
 						bs[a], bs[b] = bs[b], bs[a]
 					}
 				}
+				if n := len(bs); g.r.IntN(2) == 0 && kvmodel.Compare(bs[n-2], bs[n-1]) != 0 {
+					// first park the iterator far away, at the other end
+					lo, hi := bs[n-2], bs[n-1]
+					if kvmodel.Compare(lo, hi) > 0 {
+						lo, hi = hi, lo
+					}
+					g.add(DBOp{K: "iterop", ID: id, Mode: "setbounds", Key: lo, End: hi})
+					g.add(DBOp{K: "iterop", ID: id, Mode: "seekge", Key: lo})
+					bs = bs[:n-2]
+				}
 				for j := 0; j+1 < len(bs); j++ {
 					lo, hi := bs[j], bs[j+1]
 					if kvmodel.Compare(lo, hi) > 0 {
@@ -301,7 +327,12 @@ func (g *gen) genMixed(nops int, w mixW) {
 					g.add(DBOp{K: "iterop", ID: id, Mode: "setbounds", Key: lo, End: hi})
 					switch g.r.IntN(5) {
 					case 0:
-						g.add(DBOp{K: "iterop", ID: id, Mode: "seekprefixge", Key: g.seekKey()})
+						// a prefix that no key has (a filter can exclude it)
+						absent := lo
+						if i := strings.IndexByte(absent, '@'); i >= 0 {
+							absent = absent[:i]
+						}
+						g.add(DBOp{K: "iterop", ID: id, Mode: "seekprefixge", Key: absent + "x"})
 					case 1:
 						g.add(DBOp{K: "iterop", ID: id, Mode: "seekprefixge", Key: lo})
 					case 2:
